@@ -316,6 +316,10 @@ def run(ctx):
     ctx.check(not truthy or not tests5, "R19.5", "RecordDescriptor:truthiness", f"RecordDescriptor defines {truthy} while AvroWriter.write tests the truth of self.desc", rdc5,
               "descriptors are always truthy (no __len__/__bool__), or the writer tests `is None`", key="R19.5:RecordDescriptor:falsy-descriptor")
 
+    # ------------------------------------------------------------------ R19.7 (shared rule) the reader builds records by keyword: generated constructor code keeps falsy values
+    from .c05 import check_generated_value_tests as _cgv19
+    _cgv19(ctx, "R19.7")
+
 
 
 def _calls_float_epoch(prog, module, node) -> bool:
